@@ -212,6 +212,10 @@ class ModelBase:
                 v = pos.pop(0)
             elif fname in kwargs:
                 v = kwargs[fname]
+            elif symbolic and not is_initvar:
+                v = self.from_annotation(interp, st, ann, c.module, name=fname)
+                if default is not None and isinstance(default, ast.Constant) and default.value is None:
+                    v = v.w(maybe_none=True)
             elif default is not None and not norm_text(default).startswith('field('):
                 v = interp.eval_in_module(default, c.module, st)
             elif default is not None:
@@ -458,7 +462,11 @@ class ModelBase:
 
     def unpack(self, interp, st, v, n, target, stmt):
         if v.elts is not None and len(v.elts) == n:
-            return list(v.elts)
+            parts = list(v.elts)
+            if n == 3 and v.ty == 'tuple' and not v.unzip:
+                # component k of a 3-tuple (dims, lengths, voxel): remember which axis it belongs to
+                parts = [p if (p.axis is not None or p.ty not in ('int', 'float', None)) else p.w(axis=k) for k, p in enumerate(parts)]
+            return parts
         if v.elts is not None and len(v.elts) != n and not any(isinstance(e, ast.Starred) for e in target.elts):
             interp.emit('unpack_mismatch', target, have=len(v.elts), want=n)
         r = self.unpack_ext(interp, st, v, n, target, stmt)
@@ -611,6 +619,16 @@ class ModelBase:
                 if tv is not None and tv.isinst and v is not None:
                     names = tv.isinst[1]
                     keep = v.only('deps', 'origin', 'is_param')
+                    if v.alts and len(names) == 1 and names[0] is not None:
+                        def matches(a):
+                            return a.ty == names[0] or a.cls == names[0] or (a.ty == 'ndarray' and str(names[0]).endswith('ndarray'))
+                        sel = [a for a in v.alts if matches(a)] if branch else [a for a in v.alts if not matches(a)]
+                        if len(sel) == 1 and len(sel) != len(v.alts):
+                            st.env[test.args[0].id] = sel[0].w(maybe_none=(v.maybe_none if not branch else None), **keep.f)
+                            return
+                        if sel and len(sel) != len(v.alts):
+                            st.env[test.args[0].id] = v.w(alts=tuple(sel), union=tuple(sorted(str(a.ty) for a in sel)))
+                            return
                     if branch and len(names) == 1 and names[0] in ('str', 'int', 'float', 'dict', 'list', 'tuple'):
                         alt = [a for a in (v.alts or ()) if a.ty == names[0]]
                         new = alt[0] if alt else AV(ty=names[0])
